@@ -200,7 +200,28 @@ def tensor_method(it, tv, name, args, kwargs, node):
         st.storage_of = tv.obj
         return st
     if name == "data_ptr" and not args:
-        return VNum("int", T.sym("ptr:T%d%s" % (tv.obj.id, "+view" if tv.view else "")), nonneg=True)
+        # the address of the first element: that of the base tensor for every view that starts where the base starts (x[:],
+        # x.view(...), x.t(), x[0], x[:k]); a window that starts further in (x[1:], x[1]) has an address of its own
+        def _zero_offset(step):
+            if step[0] == "op":
+                return True
+            if step[0] == "idx0":
+                return step[1] == 0
+            if step[0] == "index":
+                for item in step[1]:
+                    if item in ("none", "ellipsis"):
+                        continue
+                    if isinstance(item, tuple) and item and item[0] == "slice":
+                        if item[1] not in (None, 0) or (item[3] is not None and not (isinstance(item[3], int) and item[3] > 0)):
+                            return False
+                        continue
+                    if item == 0 and isinstance(item, int):
+                        continue
+                    return False
+                return True
+            return False
+        off = [st_ for st_ in tv.view if not _zero_offset(st_)]
+        return VNum("int", T.sym("ptr:T%d%s" % (tv.obj.id, ("+" + repr(off)[:60]) if off else "")), nonneg=True)
     if name == "contiguous":
         # self when the tensor is already dense, otherwise a dense copy: for a caller-supplied tensor (whose layout is not
         # known) the result may or may not share storage with it
